@@ -33,7 +33,7 @@ def make_cases(beh, kind, sizes_of, run, allq=0, zq=0, vmap="int", extra=None):
         o["zooms"] = b["zooms"]
         o["zmode"] = "manual"
         c = {"kind": kind, "chroms": sizes_of(b), "items": b["items"], "opts": o, "vmap": vmap, "allq": allq, "zq": zq,
-             "mz": b.get("mz", []), "scale": 1}
+             "mz": b.get("mz", []), "scale": 1, "asq": "bed3"}
         if extra:
             c.update(extra(b, k, rng))
         cases.append(c)
@@ -50,6 +50,12 @@ def judge(run, pid, module, cases, nontrivial, describe, hang_timeout=20, known_
     bad = validate_obs(module, "Obs.cfg", lines, run.wd, "obs", extra_env={"PROP": pid})
     run.drift += len(validate_obs.last_drift)
     run.cov["traces_validated_against_impl"] += len(obs)
+    tags = {}
+    for i, tag in bad:
+        tags[tag] = tags.get(tag, 0) + 1
+    if tags:
+        run.cov.setdefault("bad_tags", {}).update(tags)
+        log("[%s] failing observations by tag: %s" % (pid, tags))
     for i, tag in bad:
         o = obs[i]
         rep = {"kind": "bbi", "tag": tag, "case": {k: o[k] for k in o if k != "obs"}, "obs": describe(o)}
